@@ -383,8 +383,8 @@ def generic(prog, rep, fam):
             val = b.term(st.value, st)
             if tb != base:
                 continue
-            if idx[0] == "idx" and idx[2] == "enumerate":
-                # args_with_default[i] = arg with (i, arg) from enumerate(args), under arg is not None
+            if idx[0] == "idx" and (idx[2] == "enumerate" or (idx[2] == "range" and idx[3] == (("call", G("len"), (P("args"),), ()),))):
+                # args_with_default[i] = arg with (i, arg) from enumerate(args) / i from range(len(args)), under arg is not None
                 exp_val = ("sub", P("args"), idx)
                 if val == exp_val and ("not", ("isnone", val)) in pcs.of(st):
                     pos_ok = True
@@ -405,8 +405,13 @@ def generic(prog, rep, fam):
         bl = builder(prog, lf, inline=False)
         rl = [s for s in cfg_of(lf).all_stmts() if isinstance(s, ast.Return)]
         augs = [s for s in cfg_of(lf).all_stmts() if isinstance(s, ast.AugAssign) and isinstance(s.op, ast.Add)]
-        okl = len(rl) == 1 and len(augs) == 1 and bl.term(augs[0].value, augs[0]) == ("list", (("const", "loc"), ("const", "scale"))) \
+        tail = ("list", (("const", "loc"), ("const", "scale")))
+        okl = len(rl) == 1 and len(augs) == 1 and bl.term(augs[0].value, augs[0]) == tail \
             and isinstance(rl[0].value, ast.Name) and isinstance(augs[0].target, ast.Name) and augs[0].target.id == rl[0].value.id
+        if not okl and rl:
+            # ... or in one expression: return <shape names> + ["loc", "scale"] on every return
+            from vstat.terms import top_alts
+            okl = all(all(a[0] == "bin" and a[1] == "+" and a[3] == tail for _l, a in top_alts(bl.term(r_.value, r_))) for r_ in rl)
     rep.check(okl, "C05.generic", f"{ci.qualname}._list_scipy_parameters:order", lf.where() if lf else site, "parameter names = scipy shapes + ['loc', 'scale']",
               "the generic wrapper's parameter order must be scipy's positional order: shape names, then loc, then scale")
     for mname, smeth in METHOD_MAP.items():
